@@ -24,6 +24,10 @@ def scenarios(thorough):
         out.append(cc.mk([E(1), P(2)], lookahead=la, workers=2, split="one", name="expect complete + plain, one read la=%d" % la))
         out.append(cc.mk([P(1), P(2), E(3)], lookahead=la, workers=2, split="joinheads", waits=(3,), room=0, read_before_await=True,
                          apps={1: {"chunks": [60]}}, name="2plain+expect head, slow client la=%d" % la))
+    for val in ("100-Continue", "100-CONTINUE"):
+        Ev = lambda k: {"k": k, "kind": "expect", "expect_value": val}
+        out.append(cc.mk([Ev(1)], lookahead=0, split="headbody", waits=(1,), name="expect %s waits" % val))
+        out.append(cc.mk([P(1), Ev(2)], lookahead=1, workers=2, split="joinheads", waits=(2,), name="plain+expect %s head same read, waits" % val))
     out.append(cc.mk([E(1), E(2)], lookahead=1, workers=2, split="headbody", waits=(1, 2), name="two expecting requests, both wait"))
     out.append(cc.mk([{"k": 1, "kind": "expect_nobody"}, P(2)], lookahead=0, split="each", name="body-less expecting request then plain"))
     out.append(cc.mk([{"k": 1, "kind": "expect_nobody"}], lookahead=0, name="body-less expecting request alone"))
